@@ -32,6 +32,10 @@ func checkC11(r *Report, p *Program) {
 	// the status decision compares with the LIVE object inside the read-modify-write, not with a memo of earlier syncs
 	rmwClosuresReadLive(r, p, "R11.5")
 	noNewCrossSyncState(r, p, "R11.6")
+	// the status write's errors keep their identity (conflict ⇒ retried on a fresh read; not-found/conflict recognised by the caller) — R12.1 on the helpers
+	errorRule(r, p, "R11.7", 4, func(f *ssa.Function) bool {
+		return strings.HasSuffix(p.File(f), "dynamic/clientset/clientset.go") || strings.HasSuffix(FK(f), "parentController.updateParentStatus")
+	})
 }
 
 func r11_1(r *Report, p *Program, e *syncEntry) {
